@@ -162,6 +162,8 @@ def check(ctx):
     vectors.manager_contract(ctx)
     from ..rules import symmetry
     symmetry.check_side_symmetry(ctx)
+    symmetry.check_transpose_complete(ctx)
+    ctx.floor('A23t', 2, 'transposed copies (settings, existence pattern)')
     ctx.floor('A12', 20, 'registered encoder / imputer classes')
     ctx.floor('A13', 8, 'representative reads')
     ctx.floor('A6b', 8, 'look-up / decode sinks')
@@ -171,6 +173,10 @@ from ..selftest import V  # noqa: E402
 
 PP = 'optimization/assign_enc/patterns/patterns.py'
 VARIANTS = [
+    V('transpose-drops-parallel-limit', 'optimization/assign_enc/matrix.py',
+      [("existence=existence_patterns,\n                                 max_conn_parallel=self.max_conn_parallel)", "existence=existence_patterns)")], key='A23t'),
+    V('transpose-drops-max-override', 'optimization/assign_enc/matrix.py',
+      [("max_src_conn_override=self.max_tgt_conn_override, max_tgt_conn_override=self.max_src_conn_override)", "max_src_conn_override=self.max_tgt_conn_override)")], key='A23t'),
     V('partitioning-mixed-targets', PP,
       [("        if any(n.conns != tgt[0].conns for n in tgt):\n            return False\n", "")], key='tgt[0].conns'),
     V('assigning-mixed-min', PP,
